@@ -328,7 +328,7 @@ LEFT = [("bol", ""), ("space", " "), ("tab", "\t"), ("lower", "a"), ("upper", "Z
         ("dquote", '"'), ("squote", "'"), ("equals", "="), ("plus", "+"), ("star", "*"), ("hash", "#"), ("at", "@"),
         ("bang", "!"), ("question", "?"), ("lt", "<"), ("gt", ">"), ("pipe", "|"), ("dollar", "$"), ("percent", "%"),
         ("caret", "^"), ("amp", "&"), ("tilde", "~"), ("backtick", "`"), ("nonascii-letter", "é"), ("cjk", "中"),
-        ("nbsp", "\u00a0"), ("vtab", "\x0b"), ("cr", "\r"), ("superscript-two", "²"), ("nul", "\x00")]
+        ("nbsp", "\u00a0"), ("vtab", "\x0b"), ("cr", "\r"), ("nul", "\x00")]
 RIGHT = [("eol-none", ""), ("eol-nl", "\n"), ("eol-crnl", "\r\n")] + LEFT[1:]
 PRE = ["", "x", "router bgp", "neighbor peer remote-as", "interface Gi0/1 as"]
 POST = ["", "x", " remote", "end of line 7"]
@@ -387,7 +387,7 @@ def unlisted(r, L):
 
 def line_cases(r, n, L, full_ctx):
     """(label, text) for one listed number n under list L.  No line contains
-    digit '.' digit or a non-ASCII decimal digit (don't-care regions)."""
+    digit '.' digit or a non-ASCII numeric character (don't-care regions)."""
     out = []
 
     def ctx(ln, lc, rn, rc):
@@ -458,6 +458,8 @@ def gen_lines(r, thorough):
                 if kind == "file":
                     inst = 2
                     t.new(2, "file", salt, lst, "list=%s" % shape)
+                    for n in (L if len(L) <= 10 else targets):       # FileAnonymizer's own map, learned from lines
+                        t.line(2, n + "\n", "form=alone eol=nl list=%s api=file" % shape)
                 for label, text in cases[c0:c0 + 60]:
                     t.line(inst, text, "%s list=%s api=%s" % (label, shape, kind))
                 traces.append(t)
@@ -488,13 +490,18 @@ def gen_functional(r, thorough):
         t.new(4, "file", salt, NS[::2], "FileAnonymizer sub-list " + lab)
         for n in NS[::2][::-1]:
             t.line(4, n + "\n", "form=alone n=%s FileAnonymizer sub-list %s api=file" % (nlabel(n), lab))
+        t.new(20, "file", other, NS, "FileAnonymizer decoy with another salt " + lab)
+        t.line(20, "router bgp " + NS[3] + "\n", "form=config FileAnonymizer decoy %s api=file" % lab)
+        t.new(21, "file", salt, sh1, "second FileAnonymizer, other list order " + lab)
+        for n in sh2:
+            t.line(21, " neighbor x remote-as " + n + "\n", "form=config n=%s second FileAnonymizer after decoy %s api=file" % (nlabel(n), lab))
         t.seg(("child", "0"))
         t.new(5, "class", other2, NS, "child decoy first " + lab)
         t.anon(5, NS)
         t.new(6, "class", salt, sh2, "fresh process hashseed=0 after decoy " + lab)
         t.anon(6, sh2, labels=["n=%s fresh process hashseed=0 after decoy %s" % (nlabel(n), lab) for n in sh2])
         t.new(7, "file", salt, NS, "fresh process FileAnonymizer " + lab)
-        for n in NS[1::2]:
+        for n in NS:
             t.line(7, "router bgp " + n + "\n", "form=config n=%s fresh process hashseed=0 %s api=file" % (nlabel(n), lab))
         t.seg(("child", "1"))
         t.new(8, "class", salt, NS[:9], "fresh process hashseed=1 short list " + lab)
@@ -516,6 +523,67 @@ def gen_special(r, thorough):
         for label, text in (("form=config", "router bgp 65000\n"), ("form=no-digits", "no digits\n"), ("form=empty-line", "")):
             t.line(1, text, "%s list=empty api=%s" % (label, kind))
         traces.append(t)
+    return traces
+
+
+def gen_oracle():
+    """Hand-written event sequences with known verdicts (NOT executions of netconan): they pin the meaning
+    of every R clause and of every don't-care region in the very TLC run that judges the real executions.
+    A verdict other than the expected one is a machinery failure."""
+    traces = []
+
+    def mk(name, expect, *events):
+        t = T("oracle-selftest", name=name)
+        t.events = [{"ev": "start"}]
+        for e in events:
+            t.events.append(e)
+            t.labels.append(name)
+        t.segments = [["handwritten", []]]
+        t.expect = expect
+        traces.append(t)
+
+    def new(i, lst, salt="c00", outcome="ok"):
+        return {"ev": "new", "inst": i, "salt": salt, "list": [D.digits(n) for n in lst], "outcome": outcome}
+
+    def anon(i, pairs, learn=True, outcome="ok"):
+        return {"ev": "anon", "inst": i, "pairs": [[D.digits(n), D.codes(x)] for n, x in pairs], "learn": learn, "outcome": outcome}
+
+    def line(i, a, b, outcome="ok"):
+        return {"ev": "line", "inst": i, "in": D.codes(a), "out": D.codes(b), "outcome": outcome}
+    L = ["12", "123"]
+    teach = anon(1, [("12", "60179"), ("123", "8747")])
+    mk("accepted", None, new(1, L), teach, line(1, "12 123 1234 x12x -12. 12\n", "60179 8747 1234 x60179x -60179. 60179\n"),
+       line(1, "", ""), line(1, "no digits", "no digits"), anon(1, [("12", "060179")]), line(1, "12", "0060179"))
+    mk("listed-left-in-place", (3, "ListedNumberNotReplaced"), new(1, L), teach, line(1, "a12b", "a12b"))
+    mk("embedded-changed", (3, "UnlistedNumberChanged"), new(1, L), teach, line(1, "x 1234 y", "x 601794 y"))
+    mk("embedded-prefix-changed", (3, "UnlistedNumberChanged"), new(1, L), teach, line(1, "x 912 y", "x 960179 y"))
+    mk("line-block", (2, "BlockNotKept"), new(1, L), line(1, "x 12 y", "x 70000 y"))
+    mk("pair-block", (2, "BlockNotKept@2"), new(1, L), anon(1, [("123", "0"), ("12", "64512")]))
+    mk("pair-block-bulk", (2, "BlockNotKept@2"), new(1, L), anon(1, [("123", "0"), ("12", "64512")], learn=False))
+    mk("identity-accepted-then-changed", (3, "NotAFunctionOfSaltAndNumber@1"), new(1, ["64511"]), anon(1, [("64511", "64511")]), anon(1, [("64511", "5")]))
+    mk("bulk-not-single-valued", (2, "NotAFunctionOfSaltAndNumber@3"), new(1, L), anon(1, [("12", "5"), ("123", "6"), ("12", "7")], learn=False))
+    mk("two-instances-same-salt", (4, "NotAFunctionOfSaltAndNumber@1"), new(1, L), teach, new(2, ["12", "99"]), anon(2, [("12", "60178")]))
+    mk("two-salts-free", None, new(1, L), teach, new(2, L, salt="c01"), anon(2, [("12", "1")]), new(3, L, salt="f00"), line(3, "12", "2"))
+    mk("other-text", (3, "OtherTextChanged"), new(1, L), teach, line(1, "x 12 y", "X 60179 y"))
+    mk("trailing-newline-lost", (3, "StructureChanged"), new(1, L), teach, line(1, "x 12\n", "x 60179"))
+    mk("number-deleted", (3, "StructureChanged"), new(1, L), teach, line(1, "x 12 y", "x  y"))
+    mk("replacement-not-a-number", (2, "ReplacementNotANumber@1"), new(1, L), anon(1, [("12", "AS7")]))
+    mk("constructor-refused", (1, "ConstructorRefusedValidList"), new(1, L, outcome="other:KeyError"))
+    mk("constructor-valueerror", (1, "ConstructorRefusedValidList"), new(1, L, outcome="ValueError"))
+    mk("empty-list-refused-dontcare", None, new(1, [], outcome="ValueError"), line(1, "x 1 y", "anything"))
+    mk("empty-list-live", (3, "UnlistedNumberChanged"), new(1, []), line(1, "x 1 y", "x 1 y"), line(1, "x 1 y", "x 2 y"))
+    mk("line-exception", (2, "Exception"), new(1, L), line(1, "x 1 y", "", outcome="other:KeyError"))
+    mk("dontcare-asdot", None, new(1, L), teach, line(1, "as 1.12 x", "as 9.9 x"), line(1, "as 1.12 x", "", outcome="other:KeyError"))
+    mk("dontcare-foreign-digit", None, new(1, L), teach, line(1, "\u0663" + "12 12\u00b2", "\u066312 12\u00b2"))
+    mk("dontcare-leading-zeros", None, new(1, L), teach, line(1, "012 0012", "012 777"))
+    mk("dot-at-end-in-scope", (3, "ListedNumberNotReplaced"), new(1, L), teach, line(1, "AS 12.", "AS 12."))
+    mk("range-end", (2, "BlockNotKept@2"), new(1, ["4294967295"]), anon(1, [("4294967295", "4200000000"), ("4294967295", "4294967296")], learn=False))
+    mk("block-edges-ok", None, new(1, ["0", "64511", "64512", "65535", "65536", "4199999999", "4200000000"]),
+       anon(1, [("0", "64511"), ("64511", "0"), ("64512", "65535"), ("65535", "64512"), ("65536", "4199999999"),
+                ("4199999999", "65536"), ("4200000000", "4294967295")]))
+    mk("block-edge-low", (2, "BlockNotKept@1"), new(1, ["64512"]), anon(1, [("64512", "64511")]))
+    mk("block-edge-high", (2, "BlockNotKept@1"), new(1, ["4199999999"]), anon(1, [("4199999999", "4200000000")]))
+    mk("unknown-instance", (1, "Exception"), anon(7, [("1", "1")]))
     return traces
 
 
@@ -564,10 +632,16 @@ def replay_case(t, k, clause):
 
 
 def judge(ck, traces):
-    rejected, states = validate_traces("AsNumTrace", "AsNumTrace.cfg", [t.events for t in traces])
+    oracle = gen_oracle()
+    rejected, states = validate_traces("AsNumTrace", "AsNumTrace.cfg", [t.events for t in traces + oracle])
     ck.traces += len(traces)
     ck.events += sum(len(t.events) for t in traces)
     ck.notes["trace_states"] = ck.notes.get("trace_states", 0) + states
+    for oi, t in enumerate(oracle):
+        got = rejected.pop(len(traces) + oi, None)
+        if got != t.expect:
+            raise MachineryError("oracle self-test %r: expected verdict %r, TLC said %r" % (t.meta["name"], t.expect, got))
+    ck.notes["oracle_selftest_traces_with_expected_verdicts"] = len(oracle)
     for ti, (k, clause) in sorted(rejected.items()):
         t = traces[ti]
         key, what = describe(t, k, clause)
@@ -655,7 +729,7 @@ def run(pid, tier):
         "the block table used by R is the one in the property statement (AsNum.tla RealBounds, checked against 16 hand-written values at TLC start-up)",
         "constructor signatures AsNumberAnonymizer(list of decimal strings, salt) and FileAnonymizer(anon_pwd, anon_ip, salt=, as_numbers=) keep their meaning",
         "TLC/SANY and the text -> character-code projection are trusted; the md5 seam and the md5(salt+number) prediction only steer coverage (drift, never verdicts)",
-        "don't-care (accepted either way, not generated): spellings with leading zeros, digit '.' digit (AS-dot), non-ASCII decimal digits, "
+        "don't-care (accepted either way, not generated): spellings with leading zeros, digit '.' digit (AS-dot), non-ASCII numeric characters, "
         "list entries that are not canonical decimals in 0..4294967295, anonymize(n) for an unlisted n, an empty list refused with ValueError at construction; "
         "a replacement equal to the original number is accepted (the statement does not forbid it)",
     ]
